@@ -14,8 +14,8 @@ var quickPlan = []planItem{
 	{spectypes.BNRoleAttester, "local", 10},
 	{spectypes.BNRoleAttester, "cert", 7},
 	{spectypes.BNRoleProposer, "full", 5},
-	{spectypes.BNRoleProposer, "local", 10},
-	{spectypes.BNRoleProposer, "cert", 7},
+	{spectypes.BNRoleProposer, "local", 9},
+	{spectypes.BNRoleProposer, "cert", 6},
 }
 
 var thoroughPlan = func() []planItem {
